@@ -1,7 +1,8 @@
 #!/usr/bin/env python3
-"""Developer tool (not a registered check): apply every seeded change under /verif/seeded/ to /repo in turn, run the property's quick
-check, undo the change, and report whether the check still catches it.  Writes seeded/REGRESSION.json.  /repo must be clean and no
-other check may be running.  The evidence files the runs overwrite are restored from git afterwards."""
+"""Developer tool (not a registered check): apply every seeded change under /verif/seeded/ (or those named) to /repo in turn, run the
+property's quick check, undo the change, and report whether the check still catches it.  Updates seeded/REGRESSION.json.  /repo must be
+clean and no other check may be running.  A patch written against an older tree is applied with `patch --fuzz`; when that fails it is
+reported as not applicable.  /repo is restored with `git reset --hard HEAD` after every run; the evidence files are restored from git."""
 import json, os, subprocess, sys, time, glob
 
 
@@ -10,10 +11,16 @@ def sh(cmd, cwd=None, timeout=3600):
     return p.returncode, p.stdout + p.stderr
 
 
-rc, out = sh("git -C /repo status --porcelain")
-assert out.strip() == "", "/repo not clean: " + out
+def restore():
+    sh("git -C /repo reset -q --hard HEAD; find /repo -name '*.orig' -o -name '*.rej' | xargs -r rm -f")
+    rc, out = sh("git -C /repo status --porcelain")
+    assert out.strip() == "", "/repo not clean: " + out
+
+
+restore()
 only = sys.argv[1:]
-res = {}
+path = "/verif/seeded/REGRESSION.json"
+res = json.load(open(path)) if os.path.exists(path) else {}
 for d in sorted(glob.glob("/verif/seeded/C*")):
     name = os.path.basename(d)
     if only and name not in only:
@@ -21,29 +28,35 @@ for d in sorted(glob.glob("/verif/seeded/C*")):
     pid = name[:3]
     patch = os.path.join(d, "patch.diff")
     rc, out = sh("git -C /repo apply --check %s" % patch)
-    how = "apply"
-    if rc != 0:
-        rc3, out3 = sh("git -C /repo apply --3way %s" % patch)
-        how = "3way"
-        if rc3 != 0 or "with conflicts" in out3:
-            sh("git -C /repo checkout -- . ; git -C /repo reset -q")
-            res[name] = {"applies": False, "why": (out + out3)[-300:]}
+    how = "git apply"
+    if rc == 0:
+        sh("git -C /repo apply %s" % patch)
+    else:
+        rc2, out2 = sh("patch -p1 -F3 --dry-run < %s" % patch, cwd="/repo")
+        if rc2 != 0:
+            res[name] = {"applies": False, "why": (out + out2)[-300:]}
             print(name, "DOES NOT APPLY"); sys.stdout.flush()
             continue
-        sh("git -C /repo reset -q")
-    else:
-        sh("git -C /repo apply %s" % patch)
+        sh("patch -p1 -F3 < %s" % patch, cwd="/repo")
+        how = "patch --fuzz=3"
+    rc_py, out_py = sh("/venv/bin/python -c 'import tlexport.main, tlexport.checksums, tlexport.session, tlexport.quic.quic_session'", cwd="/repo")
+    if rc_py != 0:
+        restore()
+        res[name] = {"applies": False, "why": "patched tree does not import: " + out_py[-200:]}
+        print(name, "DOES NOT APPLY (import error)"); sys.stdout.flush()
+        continue
     t0 = time.time()
     try:
         rc_chk, out_chk = sh("VERIF_TIER=quick ./check %s" % pid, cwd="/verif")
     finally:
-        sh("git -C /repo checkout -- . ; git -C /repo reset -q")
+        restore()
     viol = [l for l in out_chk.splitlines() if l.startswith("VIOLATION") or l.startswith("  ->")]
     caught = rc_chk == 1 and any(l.startswith("VIOLATION") for l in viol)
     res[name] = {"applies": True, "how": how, "caught": caught, "found_failing_input": caught and not any("no-failing-input-found" in l for l in viol),
                  "lines": [l[:300] for l in viol[:3]], "seconds": round(time.time() - t0)}
-    print(name, "caught" if caught else "MISSED (exit %d)" % rc_chk, viol[:2][-1][:160] if viol else out_chk[-200:]); sys.stdout.flush()
-json.dump(res, open("/verif/seeded/REGRESSION.json", "w"), indent=1)
+    print(name, "caught" if caught else "MISSED (exit %d)" % rc_chk, (viol[:2][-1][:160] if viol else out_chk[-200:])); sys.stdout.flush()
+    json.dump(res, open(path, "w"), indent=1)
+json.dump(res, open(path, "w"), indent=1)
 sh("git -C /verif checkout -- evidence")
 print("caught %d, missed %d, not applicable %d" % (sum(1 for r in res.values() if r.get("caught")), sum(1 for r in res.values() if r.get("applies") and not r.get("caught")),
                                                     sum(1 for r in res.values() if not r.get("applies"))))
